@@ -23,36 +23,31 @@ Definition cinv (s : cstate) : Prop :=
 Lemma cinv_init : cinv cinit.
 Proof. unfold cinv, cinit; cbn; repeat split; auto; discriminate. Qed.
 
+Ltac cinv_tac := repeat split; intros; auto; try discriminate; try congruence; try lia.
+
 Lemma cinv_prime o s : cinv s -> cinv (do_prime o s).
 Proof.
-  unfold cinv, do_prime. intros (H1 & H2 & H3 & H4 & H5).
-  destruct (status s) eqn:E; try (repeat split; auto; fail).
-  specialize (H2 eq_refl). specialize (H5 eq_refl).
-  destruct o; cbn; rewrite ?H2, ?H5; repeat split; auto; try discriminate; lia.
+  destruct s as [st f r a]. unfold cinv, do_prime; cbn. intros (H1 & H2 & H3 & H4 & H5).
+  destruct st; cbn; try (cinv_tac; fail).
+  specialize (H2 eq_refl). specialize (H5 eq_refl). subst.
+  destruct o; cbn; cinv_tac.
 Qed.
 
 Lemma cinv_abort c s : cinv s -> cinv (fst (do_abort c s)).
 Proof.
-  unfold cinv, do_abort. intros (H1 & H2 & H3 & H4 & H5).
-  destruct (status s) eqn:E; cbn.
-  - specialize (H2 eq_refl). specialize (H5 eq_refl). repeat split; auto; try discriminate; lia.
-  - specialize (H4 eq_refl). destruct (has_on_abort c); cbn; rewrite ?H4; repeat split; auto; try discriminate; lia.
-  - rewrite E. repeat split; auto; discriminate.
-  - rewrite E. repeat split; auto; discriminate.
+  destruct s as [st f r a]. unfold cinv, do_abort; cbn. intros (H1 & H2 & H3 & H4 & H5).
+  destruct st; cbn; try (cinv_tac; fail).
+  specialize (H4 eq_refl). subst. destruct (has_on_abort c); cbn; cinv_tac.
 Qed.
 
 Lemma cinv_settle k s : cinv s -> cinv (do_settle k s).
-Proof. unfold cinv, do_settle. intros H. destruct (fut s); cbn; auto. Qed.
+Proof. destruct s as [st f r a]. unfold cinv, do_settle; cbn. intros H. destruct f; cbn; auto. Qed.
 
 Lemma cinv_callback s : cinv s -> cinv (do_callback s).
 Proof.
-  unfold cinv, do_callback. intros (H1 & H2 & H3 & H4 & H5).
-  destruct (fut s); cbn; try (repeat split; auto; fail).
-  destruct (status s) eqn:E; cbn.
-  - repeat split; auto.
-  - destruct k; repeat split; auto; discriminate.
-  - repeat split; auto; discriminate.
-  - repeat split; auto; discriminate.
+  destruct s as [st f r a]. unfold cinv, do_callback; cbn. intros (H1 & H2 & H3 & H4 & H5).
+  destruct f; cbn; try (cinv_tac; fail).
+  destruct st; cbn; try (cinv_tac; fail). destruct k; cinv_tac.
 Qed.
 
 Lemma cinv_step c s e : cinv s -> cinv (fst (cstep c s e)).
@@ -82,23 +77,25 @@ Proof. unfold settled, do_abort. intros [H|H]; rewrite H; reflexivity. Qed.
 (* once settled, always settled with the same status: later events never run fn again *)
 Lemma runs_frozen_step c s e : status s <> CNone -> runs (fst (cstep c s e)) = runs s.
 Proof.
-  intros H. destruct e; cbn; unfold do_prime, do_abort, do_settle, do_callback.
-  - destruct (status s); try reflexivity. congruence.
-  - destruct (status s); try reflexivity. congruence.
-  - destruct (status s); try reflexivity; try congruence. destruct (has_on_abort c); reflexivity.
-  - destruct (fut s); reflexivity.
-  - destruct (fut s); reflexivity.
+  destruct s as [st f r a]; cbn. intros H.
+  destruct e; cbn; unfold do_prime, do_abort, do_settle, do_callback; cbn.
+  - destruct st; try reflexivity. congruence.
+  - destruct st; try reflexivity. congruence.
+  - destruct st; try reflexivity; try congruence. destruct (has_on_abort c); reflexivity.
+  - destruct f; reflexivity.
+  - destruct f; reflexivity.
 Qed.
 
 Lemma status_not_none_step c s e : status s <> CNone -> status (fst (cstep c s e)) <> CNone.
 Proof.
-  intros H. destruct e; cbn; unfold do_prime, do_abort, do_settle, do_callback.
-  - destruct (status s); try congruence; discriminate.
-  - destruct (status s); try congruence; discriminate.
-  - destruct (status s) eqn:E; try congruence; cbn; try (rewrite E; discriminate).
+  destruct s as [st f r a]; cbn. intros H.
+  destruct e; cbn; unfold do_prime, do_abort, do_settle, do_callback; cbn.
+  - destruct st; cbn; try congruence; discriminate.
+  - destruct st; cbn; try congruence; discriminate.
+  - destruct st; cbn; try congruence; try discriminate.
     destruct (has_on_abort c); cbn; discriminate.
-  - destruct (fut s); cbn; auto.
-  - destruct (fut s); cbn; auto. destruct (status s); try congruence; try discriminate.
+  - destruct f; cbn; auto.
+  - destruct f; cbn; auto. destruct st; try congruence; try discriminate.
     destruct k; discriminate.
 Qed.
 
@@ -122,12 +119,13 @@ Lemma on_abort_frozen_step c s e :
   status s <> CNone -> status s <> CPending -> on_abort_calls (fst (cstep c s e)) = on_abort_calls s
   /\ status (fst (cstep c s e)) <> CNone /\ status (fst (cstep c s e)) <> CPending.
 Proof.
-  intros H1 H2. destruct e; cbn; unfold do_prime, do_abort, do_settle, do_callback.
-  - destruct (status s); try congruence; repeat split; auto; discriminate.
-  - destruct (status s); try congruence; repeat split; auto; discriminate.
-  - destruct (status s) eqn:E; try congruence; cbn; rewrite E; repeat split; auto; discriminate.
-  - destruct (fut s); cbn; auto.
-  - destruct (fut s); cbn; auto. destruct (status s); try congruence; repeat split; auto; discriminate.
+  destruct s as [st f r a]; cbn. intros H1 H2.
+  destruct e; cbn; unfold do_prime, do_abort, do_settle, do_callback; cbn.
+  - destruct st; cbn; try congruence; repeat split; auto; discriminate.
+  - destruct st; cbn; try congruence; repeat split; auto; discriminate.
+  - destruct st; cbn; try congruence; repeat split; auto; discriminate.
+  - destruct f; cbn; auto.
+  - destruct f; cbn; auto. destruct st; try congruence; repeat split; auto; discriminate.
 Qed.
 
 Lemma on_abort_frozen c es : forall s,
@@ -141,8 +139,9 @@ Lemma abort_running_calls_once c es s :
   has_on_abort c = true -> status s = CPending -> cinv s ->
   on_abort_calls (crun c s (EAbort :: es)) = 1%nat.
 Proof.
-  intros Hc Hs (_ & _ & _ & H4 & _). cbn. unfold do_abort. rewrite Hs, Hc. cbn.
-  rewrite on_abort_frozen; cbn; try discriminate. rewrite (H4 Hs). reflexivity.
+  destruct s as [st f r a]; cbn. intros Hc Hs (_ & _ & _ & H4 & _). cbn in *. subst st.
+  unfold do_abort; cbn. rewrite Hc. cbn.
+  rewrite on_abort_frozen; cbn; try discriminate. rewrite (H4 eq_refl). reflexivity.
 Qed.
 
 (* ---- cancel over a table of computations *)
@@ -156,12 +155,16 @@ Definition caborted (s : cstate) : Prop := status s <> CNone /\ status s <> CPen
 
 Lemma do_abort_aborted c s : caborted (fst (do_abort c s)).
 Proof.
-  unfold caborted, do_abort. destruct (status s) eqn:E; cbn; try (rewrite E); try (split; discriminate).
+  destruct s as [st f r a]. unfold caborted, do_abort; cbn.
+  destruct st; cbn; try (split; discriminate).
   destruct (has_on_abort c); cbn; split; discriminate.
 Qed.
 
 Lemma do_abort_idem c s : caborted s -> fst (do_abort c s) = s.
-Proof. unfold caborted, do_abort. intros [A B]. destruct (status s); try congruence; reflexivity. Qed.
+Proof.
+  destruct s as [st f r a]. unfold caborted, do_abort; cbn. intros [A B].
+  destruct st; try congruence; reflexivity.
+Qed.
 
 Lemma abort_nth_other c i : forall tbl j d, i <> j -> nth j (abort_nth c i tbl) d = nth j tbl d.
 Proof.
@@ -201,11 +204,11 @@ Proof.
   assert (E : existsb (Nat.eqb j) ids = true).
   { apply existsb_exists. exists j. split; auto. apply Nat.eqb_refl. }
   rewrite E. split; [apply do_abort_aborted|].
-  destruct Hinv as (_ & _ & _ & H4 & _).
-  unfold do_abort. destruct (status (nth j tbl d)) eqn:S; cbn.
+  destruct (nth j tbl d) as [st f r a]. destruct Hinv as (_ & _ & _ & H4 & _). cbn in *.
+  unfold do_abort; cbn. destruct st; cbn.
   - repeat split; auto; intros; congruence.
-  - destruct (has_on_abort c) eqn:Hc; cbn; repeat split; auto; intros; try congruence.
-    rewrite (H4 eq_refl). reflexivity.
+  - destruct (has_on_abort c) eqn:Hc; cbn; repeat split; auto; intros; try congruence;
+      try (rewrite (H4 eq_refl); reflexivity).
   - repeat split; auto; intros; congruence.
   - repeat split; auto; intros; congruence.
 Qed.
